@@ -25,8 +25,12 @@ SHEETS = ['', 'S', 'Sheet 1', "O'Brien", 'it is', '2024', 'A1', 'R1C1', 'é', "a
           'a!b', 'x y!z', 'A!1', 'Sheet1!A1', '(1)', 'a,b', 'a;b', 'a&b', '#1', '50%', 'a=b', 'a+b', 'a<b>', 'a"b', 'a{b}', 'a~b', 'a^b',
           '$A$1', 'TRUE', '1e5', 'XFD1', 'XFE1', 'RC', 'R', '\u65e5\u672c', "don't", 'Ab12c', 'x' * 31,
           # a quote directly before a '!' inside the name (the quoted form doubles the quote: 'x''!y'!A1)
-          "x'!y", "Q1 'final'!", "a'!'b"]
+          "x'!y", "Q1 'final'!", "a'!'b",
+          # blanks at the ends belong to the name
+          'Data ', ' 2024', ' a b ']
 MAXC, MAXR = 16384, 1048576
+COLS_ALL, ROWS_ALL = COLS, ROWS
+COLS_SMALL, ROWS_SMALL = [1, 27, 16384], [1, 10, 1048576]
 
 
 def col_letter(c):
@@ -38,7 +42,8 @@ def col_letter(c):
 
 
 def work_roundtrip(job):
-    sheets, k, n = job
+    sheets, k, n = job[:3]
+    COLS, ROWS = (COLS_SMALL, ROWS_SMALL) if len(job) > 3 and job[3] else (COLS_ALL, ROWS_ALL)
     from pycel.excelutil import AddressCell, AddressRange
     acc = Acc()
 
@@ -210,6 +215,11 @@ def work_lattice(job):
                     bad('enumeration', a, f'{A!s}.rows has shape {[len(r) for r in rows]}')
                 if [list(x) for x in zip(*rows)] != cols:
                     bad('enumeration', a, f'{A!s}.cols is not the transpose of .rows')
+                # the same enumeration with the outer generator exhausted BEFORE any row / column is read
+                rows2 = [[(c.col_idx, c.row) for c in row] for row in list(A.rows)]
+                cols2 = [[(c.col_idx, c.row) for c in col] for col in list(A.cols)]
+                if rows2 != rows or cols2 != cols:
+                    bad('enumeration', a, f'list({A!s}.rows) read afterwards gives {rows2[:3]}, read row by row {rows[:3]} (cols {cols2[:3]} / {cols[:3]})')
         except Exception as exc:
             bad('enumeration', a, f'{A!s}: {type(exc).__name__}: {exc}')
         acc.add('evaluations')
@@ -405,6 +415,28 @@ def work_unbounded(job):
                             bad('roundtrip', [x, y], f'{r1!s} (result of {pre}{x} {law} {pre}{y}) does not parse: {type(exc).__name__}')
             if str(objs[x] & objs[x]) != str(objs[x]) or str(objs[x] ** objs[x]) != str(objs[x]):
                 bad('idempotent', x, f'{pre}{x} & itself = {objs[x] & objs[x]!s}, ** itself = {objs[x] ** objs[x]!s}')
+    # containment: exactly the cells of the rectangle on the range's own sheet (an open direction spans the sheet);
+    # a cell given without a sheet is judged by its coordinates alone
+    from pycel.excelutil import AddressCell
+    probes = [(1, 1), (1, 2), (2, 2), (3, 4), (4, 6), (1, 1048576), (16384, 1), (16384, 1048576), (2, 1048575), (16383, 3), (5, 5), (1, 5)]
+    for t in UNB:
+        c1, r1, c2, r2 = bounds_of_text(t)[:4]
+        for rs in ('', 'S', 'T'):
+            rng = AddressRange.create((rs + '!' if rs else '') + t)
+            if not rng.is_range:
+                continue
+            for (c, r) in probes:
+                for cs in ('', 'S', 'T'):
+                    acc.add('evaluations')
+                    cell = AddressCell((c, r, c, r), sheet=cs)
+                    want = c1 <= c <= c2 and r1 <= r <= r2 and not (rs and cs and rs != cs)
+                    try:
+                        got = cell in rng
+                    except Exception as exc:
+                        bad('contains', [t, rs, c, r, cs], f'{cell!s} in {rng!s} raised {type(exc).__name__}: {exc}')
+                        continue
+                    if got != want:
+                        bad('contains', [t, rs, c, r, cs], f'({cell!s} in {rng!s}) is {got}, the rectangle {(c1, r1, c2, r2)} on sheet {rs!r} says {want}')
     # operands on different / missing sheets: two different sheets have nothing in common (#VALUE!), a sheet-less
     # operand takes the other one's sheet, whichever way round and whichever operand is a single cell
     shapes = ['A1:D5', 'B3', 'C4:F9', 'A:A', 'B3:B3']
@@ -448,6 +480,9 @@ def run(ctx):
     n = 16
     sh = SHEETS[ctx.seed % len(SHEETS):] + SHEETS[:ctx.seed % len(SHEETS)]
     ctx.pmap(work_roundtrip, [(sh if ctx.thorough else sh[:6] + ["a 'q' b", 'a!b', 'x y!z', 'a,b', "x'!y", "Q1 'final'!"], k, n) for k in range(n)], timeout=3000)
+    if not ctx.thorough:
+        # every sheet name of the pool over a small coordinate set (quoting / splitting does not depend on the coordinates)
+        ctx.pmap(work_roundtrip, [(sh, k, n, True) for k in range(n)], timeout=3000)
     g = 6 if ctx.thorough else 4
     m = 64 if not ctx.thorough else 441
     ctx.pmap(work_lattice, [(g, k, m, True) for k in range(m)], timeout=6000)
